@@ -46,7 +46,14 @@ def _check_marks_seq(T, sub, case, who, items, kindmap, text, lc, exact):
             T.violation(sub, 'mark-backwards', case, detail='%s %s start=%d after %d' % (who, type(it).__name__, sm.index, last))
             return
         last = sm.index
-        if exact:
+        if exact == 'c':
+            # LibYAML: same counting rule, except that at the end of the input it starts a fresh line (yaml_parser_fetch_stream_end)
+            for m in (sm, em):
+                if not _c_linecol_ok(m, n, lc):
+                    T.violation(sub, 'c-line-column', case, detail='%s %s index=%d has (%d,%d), counting breaks gives %r'
+                                % (who, type(it).__name__, m.index, m.line, m.column, lc.at(m.index)))
+                    return
+        elif exact:
             for m in (sm, em):
                 if (m.line, m.column) != lc.at(m.index):
                     T.violation(sub, 'line-column', case, detail='%s %s index=%d has (%d,%d), counting breaks gives %r'
@@ -66,6 +73,11 @@ def _check_marks_seq(T, sub, case, who, items, kindmap, text, lc, exact):
                 return
 
 
+def _c_linecol_ok(m, n, lc):
+    l0, c0 = lc.at(m.index)
+    return (m.line, m.column) == (l0, c0) or (m.index == n and c0 != 0 and (m.line, m.column) == (l0 + 1, 0))
+
+
 def _check_err_marks(T, sub, case, who, e, text, lc, exact):
     n = len(text)
     if isinstance(e, yaml.MarkedYAMLError):
@@ -75,6 +87,10 @@ def _check_err_marks(T, sub, case, who, e, text, lc, exact):
                 continue
             if not (0 <= m.index <= n):
                 T.violation(sub, 'error-mark-range', case, detail='%s %s.%s index=%d len=%d' % (who, type(e).__name__, nm, m.index, n))
+            elif exact == 'c':
+                if not _c_linecol_ok(m, n, lc):
+                    T.violation(sub, 'c-error-line-column', case, detail='%s %s.%s index=%d has (%d,%d), counting gives %r'
+                                % (who, type(e).__name__, nm, m.index, m.line, m.column, lc.at(m.index)))
             elif exact and (m.line, m.column) != lc.at(m.index):
                 T.violation(sub, 'error-line-column', case, detail='%s %s.%s index=%d has (%d,%d), counting gives %r'
                             % (who, type(e).__name__, nm, m.index, m.line, m.column, lc.at(m.index)))
@@ -87,7 +103,8 @@ def check_text(T, sub, case, text, via=None):
     lc = linecol.LineCol(text)
     nontriv = 0
     for be, Loader in (('py', yaml.Loader), ('c', yaml.CLoader)):
-        exact = be == 'py'
+        # the C binding counts the index of a str in characters but gives a byte order mark no index at all: exact only without one
+        exact = True if be == 'py' else ('c' if '\ufeff' not in text else False)
         toks, terr = [], None
         T.evaluations += 1
         try:
@@ -416,6 +433,13 @@ def replay(sub, case, T):
 def selftest():
     grammar.selftest()
     linecol.selftest()
+    # the LibYAML end-of-input rule: (line+1, 0) is accepted at index == len(text) only, and only when the last line is not empty
+    from collections import namedtuple
+    M = namedtuple('M', 'index line column')
+    L = linecol.LineCol('a\nbc')
+    assert _c_linecol_ok(M(4, 1, 2), 4, L) and _c_linecol_ok(M(4, 2, 0), 4, L) and _c_linecol_ok(M(2, 1, 0), 4, L)
+    assert not _c_linecol_ok(M(3, 2, 0), 4, L) and not _c_linecol_ok(M(4, 2, 1), 4, L) and not _c_linecol_ok(M(2, 0, 2), 4, L)
+    assert not _c_linecol_ok(M(2, 2, 0), 2, linecol.LineCol('a\n'))
     r = run_parser((20, 21))
     assert r[0] == 'finished' and [EVENT_KIND[type(e).__name__] for e in r[1]] == ['SS', 'DS', 'SCALAR', 'DE', 'SE'], r
     assert run_parser((13,))[0] == 'error' or run_parser((13, 21))[0] == 'error'
